@@ -23,7 +23,7 @@ PROP = dict(
              "advanced (ApplyFuncIfNoError swallows errors and panics: a rolled-back batch leaves no other trace). The runner diffs NewUserOrder's output against "
              "Liquidity.user_order_amm of the stored record, the set of orders put on the book against Liquidity.on_book, the applied fills against the engine's, the "
              "executed flags against Liquidity.end_block_trace, and evaluates holds_C05_life (a batch's payment <= REMAINING offer coin before it, matched <= open "
-             "amount) on the engine's and on the applied fills, holds_C07_life / holds_C07_life_step on every observed order record. Workload keeper-f1 = the directed search of C05 (known finding C05-F1 reached through the keeper by one limit order against small pools at low prices) judged by the C07 predicates: the escrow decomposition relative to the recorded fills (kf_C05_1_via_fills) and the executed flags (kf_C05_2_stall). Cases 0 and 1 start with the regression history of C07-F1 (market-making orders in app 2 / pair 1 resp. app 1 / "
+             "amount) on the engine's and on the applied fills, holds_C07_life / holds_C07_life_step on every observed order record. Workload keeper-f1 = the directed search of C05 (known finding C05-F1 reached through the keeper by one limit order against small pools at low prices) judged by the C07 predicates: the escrow decomposition relative to the recorded fills (kf_C05_1_via_fills) and the executed flags (kf_C05_2_stall). 5% of the order ops are WRONG-COIN orders and 60% of the cases carry a battery of 5-10 of them at the prices of a resting buy and a resting sell order, followed by counter orders that cross those (limit / market orders whose coins are wrong in one position at a time: right demand coin with a foreign offer coin, right offer coin with a foreign demand coin, swapped, both foreign, the same coin twice; foreign = the third asset of the app, the fee asset, a pool coin of this or another app; the sender holds the offered coin and price / amounts are valid, so the pair check of ValidateMsgLimitOrder / ValidateMsgMarketOrder decides; all must be rejected and change nothing). The escrow decomposition and the fee-collector clause are evaluated per DENOM over the pair's two coins, every asset and every coin an accepted order offers. Cases 0 and 1 start with the regression history of C07-F1 (market-making orders in app 2 / pair 1 resp. app 1 / "
              "its highest pair: place, next batch MsgCancelMMOrder, place again, replace by a second MsgMMOrder)",
         modelled=["the matching engine (amm.Match / FindMatchPrice, C05's subject): the fills of every batch (order id, matched amount, paid offer coin, "
                   "received demand coin), the pools' net reserve changes and the dust are read off the implementation's records and enter the model as ENV; "
